@@ -2,11 +2,23 @@
 // real headers define them, whether UnitRebind maps these exponents back to the named struct, and the
 // aliases.  Output (one line per unit):  unit <name> <canonical 0|1> n1/d1 ... n7/d7
 //                                        alias <name> <target>
+// and the class traits that Quantity/qtSpecific.hxx specialises for quantities:
+//   assign <i> <j> <0|1>         IsAssignableTo<qt<U_i>, qt<U_j>> for every pair of named units
+//   assignvt <from> <to> <0|1>   IsAssignableTo<qt<Mass,from>, qt<Mass,to>>            (d double, f float)
+//   assignsc <what> <0|1>        IsAssignableTo between a dimensionless quantity and double
+//   abstype <i> <tag> n1/d1 .. n7/d7        unit of AbsType<qt<U_i>>::type
+//   realpart <tag> n1/d1 .. n7/d7           unit of RealPartType<qt<NoUnit>>::type
+//   trait <IsScalar|IsReal|IsComplex> <i> <qt> <const qt> <qt float>
+// and tfel::math::ieee754::fpclassify / isnan / isfinite on a quantity next to the same call on its value:
+//   ieee <k> <fpclassify q> <fpclassify x> <isnan q> <isnan x> <isfinite q> <isfinite x>
 #include <iostream>
+#include <limits>
 #include <type_traits>
-#include "TFEL/Math/qt.hxx"
+#include "C20/emit.hxx"
 
 using namespace tfel::math::unit;
+namespace tt = tfel::typetraits;
+using tfel::math::qt;
 
 template <typename U>
 static void unit(const char* name) {
@@ -21,6 +33,37 @@ template <typename A, typename T>
 static void alias(const char* name, const char* target) {
   static_assert(std::is_same_v<A, T>, "alias no longer names this unit");
   std::cout << "alias " << name << " " << target << "\n";
+}
+
+template <typename U>
+static void unit_of(const char* what) {
+  constexpr auto e = exponents<U>;
+  std::cout << what << " " << c20::tag<U>();
+  for (const auto& x : e.exponents) std::cout << " " << x.numerator << "/" << x.denominator;
+  std::cout << "\n";
+}
+
+template <typename Ui, typename... Us>
+static void assign_row(const int i, c20::List<Us...>) {
+  int j = 0;
+  ((std::cout << "assign " << i << " " << j++ << " " << (tt::isAssignableTo<qt<Ui>, qt<Us>>() ? 1 : 0) << "\n"), ...);
+}
+
+template <typename... Us>
+static void traits(c20::List<Us...> l) {
+  int i = 0;
+  (assign_row<Us>(i++, l), ...);
+  i = 0;
+  ((std::cout << "abstype " << i++ << " ", unit_of<tfel::math::quantity_unit<typename tt::AbsType<qt<Us>>::type>>("")), ...);
+  i = 0;
+  ((std::cout << "trait IsScalar " << i++ << " " << tt::IsScalar<qt<Us>>::cond << " " << tt::IsScalar<const qt<Us>>::cond << " "
+              << tt::IsScalar<qt<Us, float>>::cond << "\n"), ...);
+  i = 0;
+  ((std::cout << "trait IsReal " << i++ << " " << tt::IsReal<qt<Us>>::cond << " " << tt::IsReal<const qt<Us>>::cond << " "
+              << tt::IsReal<qt<Us, float>>::cond << "\n"), ...);
+  i = 0;
+  ((std::cout << "trait IsComplex " << i++ << " " << tt::IsComplex<qt<Us>>::cond << " " << tt::IsComplex<const qt<Us>>::cond
+              << " " << tt::IsComplex<qt<Us, float>>::cond << "\n"), ...);
 }
 
 #define UNIT(X) unit<X>(#X)
@@ -53,5 +96,23 @@ int main() {
   ALIAS(Newton, Force);
   ALIAS(Pressure, Stress);
   ALIAS(EnergyDensity, Stress);
+  traits(c20::Named{});
+  std::cout << "assignvt f d " << tt::isAssignableTo<qt<Mass, float>, qt<Mass, double>>() << "\n";
+  std::cout << "assignvt d f " << tt::isAssignableTo<qt<Mass, double>, qt<Mass, float>>() << "\n";
+  std::cout << "assignvt d d " << tt::isAssignableTo<qt<Mass, double>, qt<Mass, double>>() << "\n";
+  std::cout << "assignsc nounit-to-double " << tt::isAssignableTo<qt<NoUnit>, double>() << "\n";
+  std::cout << "assignsc double-to-nounit " << tt::isAssignableTo<double, qt<NoUnit>>() << "\n";
+  unit_of<tfel::math::quantity_unit<typename tt::RealPartType<qt<NoUnit>>::type>>("realpart");
+  {
+    namespace ie = tfel::math::ieee754;
+    const double xs[] = {1.5, 0., -0., std::numeric_limits<double>::quiet_NaN(), std::numeric_limits<double>::infinity(),
+                         -std::numeric_limits<double>::infinity(), std::numeric_limits<double>::denorm_min(), -2.5e-320};
+    int k = 0;
+    for (const double x : xs) {
+      const qt<Stress> q(x);
+      std::cout << "ieee " << k++ << " " << ie::fpclassify(q) << " " << ie::fpclassify(x) << " " << ie::isnan(q) << " "
+                << ie::isnan(x) << " " << ie::isfinite(q) << " " << ie::isfinite(x) << "\n";
+    }
+  }
   return 0;
 }
